@@ -543,7 +543,7 @@ def run(ctx):
 
     t0 = time.time()
     res0 = pmap(fresh, [(j, "0") for j in jobs])
-    second = set(range(len(jobs))) if not quick else set(rng.sample(range(len(jobs)), min(8, len(jobs))))
+    second = set(range(len(jobs))) if not quick else set(rng.sample(range(len(jobs)), min(4, len(jobs))))
     res1_part = pmap(fresh, [(jobs[k], "20260930") for k in sorted(second)])
     res1 = list(res0)
     for k, r in zip(sorted(second), res1_part):
@@ -629,7 +629,7 @@ def run(ctx):
             ctx.count("variant:" + v["tag"].split("_")[0])
             corpus.append(v)
     # a reference must be reproducible: second fresh interpreter (other hash seed, later wall-clock time) for every kept variant
-    recheck = set(range(n0, len(corpus))) if not quick else set(rng.sample(range(n0, len(corpus)), min(8, len(corpus) - n0)))
+    recheck = set(range(n0, len(corpus))) if not quick else set(rng.sample(range(n0, len(corpus)), min(4, len(corpus) - n0)))
     again_part = pmap(fresh, [(corpus[k], "20260930") for k in sorted(recheck)])
     again = [{"digest": v["digest"]} for v in corpus[n0:]]
     for k, r in zip(sorted(recheck), again_part):
@@ -719,8 +719,8 @@ def run(ctx):
         if not j["args"] and j["parser"] not in firsts and os.path.getsize(j["file"]) <= VARIANT_MAX_BYTES and not j["empty"]:
             firsts[j["parser"]] = k
     others = sorted(p_ for p_ in firsts if base_of.get(p_) != "LineParser")
-    chosen = sorted(p_ for p_ in firsts if base_of.get(p_) == "LineParser") + (others if not quick else rng.sample(others, min(3, len(others))))
-    with_na = set(chosen) if not quick else set(rng.sample(chosen, min(4, len(chosen))))
+    chosen = sorted(p_ for p_ in firsts if base_of.get(p_) == "LineParser") + (others if not quick else rng.sample(others, min(2, len(others))))
+    with_na = set(chosen) if not quick else set(rng.sample(chosen, min(3, len(chosen))))
     cands, owner_ = [], []
     for p_ in chosen:
         k = firsts[p_]
